@@ -25,7 +25,8 @@ RULE = ('(a) in process: the real PlayingPhaseWithHands and FOUR real ObservedPl
         'vulnerability, declarer) and its play replica at the end of the board (trick history with leaders, trick counts, trick '
         'number, turn) are compared with the table manager\'s record in the log, and every client must see "End of session" and '
         'return. distinct = distinct (deal, contract, play list) / (scenario, systems, policy).')
-TRUSTED = ['primitive semantics of Queue / socket / Barrier as stated for C09',
+TRUSTED = ['the MiniPy semantics (Model/MiniPy.lean: value semantics, no aliasing) and the code translator (harness/translate_py.py), validated on every run by executing the translated program next to the real code (counters translated_*)',
+           'primitive semantics of Queue / socket / Barrier as stated for C09',
            'the client-side replica is observed by substituting a recording subclass for ObservedPlayingPhase in the client '
            'module\'s namespace (harness-side, no repository hook) and by wrapping Client.bidding_phase']
 ASSUMPTIONS = ['in-memory network instead of TCP', 'PYTHONHASHSEED pinned (RandomPlay iterates a set)']
